@@ -192,17 +192,18 @@ impl Kind {
                     debug_assert!(index >= 0, "all negative cases have been handled");
                     let index = index as usize;
 
-                    let index_exists = collection.known().contains_key(&index.into());
-                    if !index_exists {
-                        // Add "null" to all holes, adding it to the "unknown" if it exists.
-                        // Holes can never be undefined.
-                        let hole_type = collection.unknown_kind().without_undefined().or_null();
+                    // Add "null" to all holes, adding it to the "unknown" if it exists.
+                    // Holes can never be undefined: an element that may be missing becomes "null".
+                    let hole_type = collection.unknown_kind().without_undefined().or_null();
 
-                        for i in 0..index {
-                            collection
-                                .known_mut()
-                                .entry(i.into())
-                                .or_insert_with(|| hole_type.clone());
+                    for i in 0..index {
+                        let element = collection
+                            .known_mut()
+                            .entry(i.into())
+                            .or_insert_with(|| hole_type.clone());
+                        if element.contains_undefined() {
+                            element.remove_undefined();
+                            element.add_null();
                         }
                     }
 
